@@ -61,7 +61,8 @@ const CONSTS: &[f64] = &[
 
 pub fn gen_dist(p: &mut Prng, mode: DistMode, small: bool) -> Dist {
     let start = *p.pick(&[0.0, 0.0, 0.0, 0.0, 1.0, -2.0, 0.5, 1e6]);
-    let max = *p.pick(&[0.0, 0.0, 0.0, 0.0, 5.0, 1000.0, 0.3]);
+    // a maximum of its own above the 24 h cap must not lift that cap (seeded change C04-a)
+    let max = *p.pick(&[0.0, 0.0, 0.0, 0.0, 5.0, 1000.0, 0.3, 6.048e11, 1e15]);
     let konst = |p: &mut Prng| {
         let v = if small { *p.pick(&[0.0, 1.0, 1.0, 2.0, 3.0, 0.4, 0.5, 1.5, 2.5, 10.0]) } else { *p.pick(CONSTS) };
         DistType::Uniform { low: v, high: v }
